@@ -63,6 +63,14 @@ MUTANTS = {
         ('budget_ignored', r'ReceiveChannelUnreliable::new\(channel_config\.channel_id, channel_config\.max_memory_usage_bytes\)', 'ReceiveChannelUnreliable::new(channel_config.channel_id, 0)'),
         ('send_order_wrong_kind', r'channel_send_order\.push\(ChannelOrder::Reliable\(channel_config\.channel_id\)\);', 'channel_send_order.push(ChannelOrder::Unreliable(channel_config.channel_id));'),
     ],
+    'U16': [
+        ('budget_doubled', r'let mut available_bytes = self\.available_bytes_per_tick;', 'let mut available_bytes = self.available_bytes_per_tick * 2;'),
+        ('ack_sequence_not_advanced', r'self\.packet_sequence \+= 1;(\s+)packets\.push\(ack_packet\);', r'\1packets.push(ack_packet);'),
+        ('buffer_too_small', r'let mut buffer = \[0u8; 1400\];', 'let mut buffer = [0u8; 1200];'),
+        ('send_when_disconnected', r'(pub fn get_packets_to_send\(&mut self\)[\s\S]*?)if self\.is_disconnected\(\) \{', r'\1if false {'),
+        ('ack_always', r'if !self\.pending_acks\.is_empty\(\) \{', 'if true {'),
+        ('payload_truncated', r'serialized_packets\.push\(buffer\[\.\.len\]\.to_vec\(\)\);', 'serialized_packets.push(buffer[..len / 2].to_vec());'),
+    ],
     'U15': [
         ('ack_not_recorded', r'self\.add_pending_ack\(packet\.sequence\(\)\);', ''),
         ('routed_to_fixed_channel', r'self\.receive_reliable_channels\.get_mut\(&channel_id\) else', 'self.receive_reliable_channels.get_mut(&0) else'),
